@@ -69,7 +69,7 @@ def export_case():
         for i in range(draw(st.integers(0, 6))):
             gens.append({'blk': draw(st.integers(0, 400)), 'name': draw(st.sampled_from(['wel 1', 'wel 2', 'inj 1', 'src 7'])),
                          'type': draw(st.sampled_from(['MASS', 'HEAT', 'COM1', 'DELG', 'MASS', 'TMAK', 'DMAK'])),
-                         'gx': draw(st.sampled_from([-5.0, 2.5, 0.0, 1e3])), 'table': draw(st.booleans())})
+                         'gx': draw(st.sampled_from([-5.0, 2.5, 0.0, 1e3])), 'table': draw(st.booleans()), 'atm': draw(st.integers(0, 4)) == 0})
         return {'k': 'export', 'rc': rc, 'eos': eosname, 'eos_via': draw(st.sampled_from(['argument', 'multi', 'simulator', 'simulator+multi', 'simulator+multi-blank-eos', 'simulator+multi-none-eos', 'multi-padded', 'simulator-padded'])),
                 'rocks': draw(st.lists(st.integers(0, 2), min_size=1, max_size=12)),
                 'boundary': draw(st.lists(st.tuples(st.integers(0, 400), st.sampled_from(['zero', 'huge', 'large'])), max_size=3)),
@@ -336,6 +336,9 @@ def run_export(case, R):
     for i, gm in enumerate(case['gens']):
         if not unds: break
         blk = unds[gm['blk'] % len(unds)]
+        if gm.get('atm') and natm > 0:
+            # a generator in an atmosphere block (a surface flux): not a cell of the Waiwera mesh, but still one source
+            blk = g.block_name_list[gm['blk'] % natm]; R.label('export:generator-in-an-atmosphere-block')
         kw = {}
         if gm['table'] and gm['type'] in ('MASS', 'HEAT', 'COM1'):
             kw = {'ltab': 3, 'time': [0., 1e6, 2e6], 'rate': [gm['gx'], gm['gx'] * 0.5, 0.0]}
@@ -354,6 +357,7 @@ def run_export(case, R):
         if R.check(len(src) == len(non_group), 'export:source-count', '%d sources for %d non-group generators' % (len(src), len(non_group))):
             for s_, x in zip(src, non_group):
                 ci = g.block_name_index[x.block] - natm
+                if ci < 0: continue        # (atmosphere block: the property names no cell for it)
                 R.check(s_.get('cell') == ci, 'export:source-cell', 'generator %r in block %r (cell %d): source cell %r' % (x.name, x.block, ci, s_.get('cell')))
                 if ci == 0: R.label('export:source-in-cell-0')
         try: _json.dumps(gj)
